@@ -485,6 +485,16 @@ fn d3_totality_small() {
 	run(&w);
 }
 
+/// D2c: the cheapest nesting-2 shape: deserializer faults only, three events
+/// (collection > collection > failing entry / failing accessor).
+#[kani::proof]
+#[kani::unwind(8)]
+fn d2c_de_fault_nest2() {
+	let w = World::new(3, 2, false, false, true);
+	run(&w);
+	kani::cover!(w.max_depth_seen.get() == 2 && w.de_failed.get(), "D2c deserializer fault two levels down");
+}
+
 /// D4: nesting 2 (best effort)
 #[kani::proof]
 #[kani::unwind(8)]
